@@ -212,6 +212,18 @@ func c14doc(c *core.Ctx, r *rand.Rand) {
 	if r.IntN(40) == 0 {
 		c.Sample(map[string]any{"document": trunc(text, 500), "marshalled": trunc(string(out), 300)})
 	}
+	// the parsed value belongs to the caller: whatever is done to it, parsing the same text again means the same
+	scribbleSchema(&s, map[*avro.SchemaObject]bool{})
+	s2, err := avro.SchemaFromString(text)
+	if err != nil {
+		c.Violate("parse-rejects-valid", fmt.Sprintf("valid schema document rejected when parsed a second time: %v\n %s", err, trunc(text, 600)), map[string]any{"text": text})
+		return
+	}
+	if d := cmpLibIR(s2, ir, "schema"); d != "" {
+		c.Violate("parse-structure", fmt.Sprintf("second parse of the same text, after the first result was modified by its holder: %s\n document %s", d, trunc(text, 600)), map[string]any{"text": text})
+		return
+	}
+	c.Count("reparsed-after-scribble", 1)
 }
 
 func c14malformed(c *core.Ctx, r *rand.Rand) {
@@ -368,7 +380,7 @@ func init() {
 		ID:        "C14",
 		Level:     "exploration",
 		Technique: "runtime monitoring: generated schema documents (random key order, whitespace, escapes, unknown attributes) parsed by the library and by an independent encoding/json-based parser, structural comparison; marshal/parse identity; malformed documents must be rejected",
-		Rule: "schema IR of depth <=6 over all supported attributes rendered to JSON text with layout variation; mutations (truncation, structural-character deletion, stray characters, trailing garbage, random bytes) for the malformed clause; schemas produced by SchemaForType; " +
+		Rule: "schema IR of depth <=6 over all supported attributes rendered to JSON text with layout variation; mutations (truncation, structural-character deletion, stray characters, trailing garbage, random bytes) for the malformed clause; schemas produced by SchemaForType; after each document the parsed value is overwritten at every depth by its holder and the same text is parsed again; " +
 			"distinct_nontrivial = distinct schema shapes (structure ignoring names) parsed and compared",
 		Explanation: "The generator's IR is the ground truth (and is cross-checked against refavro's own parser on every document); the library's Schema value must carry the same type, name, namespace, logicalType, fields in order, items, values, size, symbols and branches in order; Marshal output must be valid JSON (encoding/json.Valid), parse back to an identical Schema and mean the same to the independent parser.",
 		Assumptions: []string{"documents are valid UTF-8 without duplicate keys; attributes appear only on the types where Avro defines them", "'malformed' means encoding/json.Valid rejects the text; valid JSON of the wrong shape is only checked for no-panic"},
